@@ -500,6 +500,16 @@ def gen_cases(tier, rng):
     for ta in ctxs:
         for tb in ctxs:
             yield {'kind': 'ctxpair', 'a': ta, 'b': tb}
+    # labels that differ only in ways a rendered text form may hide: trailing/leading blanks, padding width, case
+    pool = ['a', 'a ', ' a', 'ab', 'A', 'a  ', 'ab ']
+    for la in pool:
+        for lb in pool:
+            for extra in ('ab', 'abc'):
+                ta = [[extra, la], ['p'], [[True], [False]]]
+                tb = [[extra, lb], ['p'], [[True], [False]]]
+                if la != extra and lb != extra:
+                    yield {'kind': 'ctxpair', 'a': ta, 'b': tb}
+                    yield {'kind': 'ctxpair', 'a': [['o'], [extra, la], [[True, False]]], 'b': [['o'], [extra, lb], [[True, False]]]}
     if not quick:
         for i in range(20000):
             n, m_ = rng.randint(1, 3), rng.randint(1, 3)
